@@ -162,6 +162,7 @@ def run(tier):
     expected = rating.evaluate(ck, cases, workers=None)
     ck.log('%d (peer, banner) cases evaluated by TLC; RecsConsistent holds' % len(cases))
     check_cases(ck, cases, expected)
+    sequence_leg(ck)
     for c in cases[:400:97]:
         ck.sample({'banner': rating.render_sw(c['sw']), 'kex': c['kex'], 'expected_recs': sorted(
             '%s%s:%s' % ({'del': '-', 'add': '+', 'chg': '!'}[r['action']], r['cat'], r['name']) for r in expected[c['id']]['recs'])[:12]})
@@ -170,6 +171,44 @@ def run(tier):
                       'vendor string and an unrecognised string; expected sets from TLC (SshRating!RecsOf); text (rec) lines and JSON recommendations compared, '
                       'and cross-checked against the notes of the same report. distinct = (product, version, lists)')
     return ck.finish()
+
+
+def sequence_leg(ck):
+    """Servers with the same banner and the same lists but different measurements (key sizes, group sizes), audited one after the
+    other in one invocation: each one's recommendations follow its own report."""
+    import json
+    from checks import multi
+    ossh = {'product': 'OpenSSH', 'c': [8, 9], 'p': ['p', 1]}
+    base = dict(kex=['curve25519-sha256', 'diffie-hellman-group-exchange-sha256'], key=['rsa-sha2-512', 'rsa-sha2-256', 'ssh-ed25519'],
+                enc=['aes256-ctr', 'aes128-ctr'], mac=['hmac-sha2-256', 'hmac-sha2-512'])
+    variants = [dict(hk={'rsa-sha2-512': (2048, '', 0), 'rsa-sha2-256': (2048, '', 0)}, dh={'diffie-hellman-group-exchange-sha256': (3072, True)}),
+                dict(hk={'rsa-sha2-512': (4096, '', 0), 'rsa-sha2-256': (4096, '', 0)}, dh={'diffie-hellman-group-exchange-sha256': (3072, True)}),
+                dict(hk={'rsa-sha2-512': (4096, '', 0), 'rsa-sha2-256': (4096, '', 0)}, dh={'diffie-hellman-group-exchange-sha256': (2048, False)}),
+                dict(hk={'rsa-sha2-512': (1024, '', 0), 'rsa-sha2-256': (1024, '', 0)}, dh={'diffie-hellman-group-exchange-sha256': (4096, True)})]
+    cases = [rating.mk_case(600 + i, sw=ossh, hk=v['hk'], dh=v['dh'], **base) for i, v in enumerate(variants)]
+    exp = rating.evaluate(ck, cases)
+    scs = []
+    for order in ((0, 1, 2, 3), (3, 2, 1, 0), (1, 0), (2, 1), (0, 3, 0)):
+        sc, labels = multi.scenario([('server', rating.server_cfg(cases[i])) for i in order], 1, tuple(range(len(order))), json_out=True)
+        scs.append((sc, labels, order))
+    for (sc, labels, order), r in zip(scs, runner.run_many([x[0] for x in scs])):
+        ck.evaluated()
+        if r.get('harness_error') or r.get('hang'):
+            raise common.Machinery('sequence run failed: %r' % (r.get('harness_error') or 'hang'))
+        replay = {'order': order, 'argv': sc['argv'], 'exit': r['exit'], 'stdout': r['stdout'][-3000:]}
+        try:
+            docs = {el['target']: el for el in json.loads(r['stdout'])}
+        except (ValueError, KeyError, TypeError):
+            ck.violation('sequence-json-unparsable', 'stdout of a -T -j run of healthy servers is not a JSON array of reports', replay)
+            continue
+        bad = False
+        for pos, (lab, i) in enumerate(zip(labels, order)):
+            for sig, desc in rating.compare_recs(cases[i], exp[cases[i]['id']], js=docs.get(lab, {})):
+                ck.violation('sequence-' + sig, '[target %d of %r: same banner and lists as its neighbours, its own measurements] %s' % (pos + 1, order, desc), replay)
+                bad = True
+        if not bad:
+            ck.cov['traces_validated_against_impl'] += 1
+            ck.nontrivial(('sequence', order))
 
 
 def cli_version_leg(ck, tier):
